@@ -93,7 +93,7 @@ Inductive supply : Type :=
 | SPlain      (* public/private key or non-CA certificate in PEM/DER, or an SPSDK key object *)
 | SRaw        (* NXP raw bytes (modulus||exponent or X||Y) *)
 | SCaBytes    (* CA certificate given as bytes or as a file path *)
-| SCaObj.     (* CA certificate given as a spsdk Certificate object *)
+| SCaObj.     (* CA certificate given as a spsdk Certificate object (tagged like SCaBytes since the repair of C03-F2) *)
 
 (* EllipticCurvePublicNumbers(x, y, curve).public_key(): the point must satisfy y^2 = x^3 - 3x + b (mod p)
    (NIST P-256 / P-384 / P-521 domain parameters, FIPS 186-4 D.1.2) *)
@@ -121,13 +121,13 @@ Definition raw_decode (d : list N) : res key :=
        | None => Err 1
        end.
 
-(* RKHT.convert_key / extract_public_key_from_data: the key and whether it carries the ad-hoc "ca" attribute.
-   A CA Certificate *object* hits setattr(cert, "ca", True) on a read-only property: AttributeError. *)
+(* RKHT.convert_key / extract_public_key_from_data: the key and whether it carries the ad-hoc "ca" attribute
+   (set on the public key of every CA certificate, whether it arrives as bytes, path or Certificate object). *)
 Definition convert_key (p : key * supply) : res (key * bool) :=
   match snd p with
   | SPlain => Ok (fst p, false)
   | SCaBytes => Ok (fst p, true)
-  | SCaObj => Err 2
+  | SCaObj => Ok (fst p, true)
   | SRaw => bind (raw_key (fst p)) (fun d => bind (raw_decode d) (fun k => Ok (k, false)))
   end.
 Definition convert_all (inp : list (key * supply)) : res (list (key * bool)) := map_res convert_key inp.
@@ -255,9 +255,10 @@ Definition srk_record_bytes (c : ahab_cfg) (si : srk_info) (ca : bool) (id : N) 
   let p := srk_params c si id in
   [a_rec_tag c] ++ le16 (12 + nlen p) ++ [si_alg si; hash_tag c (si_hash si); si_ksid si; 0; srk_flags c ca]
   ++ le16 (si_l1 si) ++ le16 (si_l2 si) ++ p.
-(* record-level verify(): v2 compares the SECOND parameter's length with the FIRST table entry (as coded) *)
+(* record-level verify(): v2 checks the lengths of both parameters inside the SRK data against KEY_SIZES *)
 Definition srk_record_ok (c : ahab_cfg) (si : srk_info) : bool :=
-  if a_v2 c then negb (negb (si_l2 si =? 0) && negb (nlen (skipn (N.to_nat (si_l1 si)) (si_data si)) =? si_l1 si))
+  if a_v2 c then (nlen (firstn (N.to_nat (si_l1 si)) (si_data si)) =? si_l1 si)
+                 && negb (negb (si_l2 si =? 0) && negb (nlen (skipn (N.to_nat (si_l1 si)) (si_data si)) =? si_l2 si))
   else true.
 Definition srk_sig (c : ahab_cfg) (si : srk_info) (ca : bool) (id : N) : N * N * N * N * N :=
   (si_alg si, si_hash si, si_ksid si, 12 + nlen (srk_params c si id), srk_flags c ca).
@@ -398,7 +399,7 @@ Fixpoint parse_certs (n : nat) (rest : list N) : res (list (list N) * list N) :=
   end.
 Fixpoint split_n (fuel : nat) (k : nat) (l : list N) : list (list N) :=
   match fuel with O => [] | S f => firstn k l :: split_n f k (skipn k l) end.
-(* CertBlockV1.parse: header, certificates, RKHTv1.parse; header.image_length is NOT copied (as coded) *)
+(* CertBlockV1.parse: header (incl. image_length), certificates, RKHTv1.parse *)
 Definition cb1_parse (d : list N) : res cb1 :=
   if nlen d <? g_cb1_hdr_size then Err 1 else
   if negb (eqb_list (firstn 4 d) g_cb1_sig) then Err 1 else
@@ -414,7 +415,7 @@ Definition cb1_parse (d : list N) : res cb1 :=
       let tbl := firstn (N.to_nat (g_rkht_size * g_rkh_size)) rest in
       let hs := split_n (N.to_nat g_rkht_size) (length tbl / N.to_nat g_rkht_size) tbl in
       if negb (forallb (fun h => nlen h =? g_rkh_size) hs) then Err 1 else
-      Ok {| c1_major := f16 4%nat; c1_minor := f16 6%nat; c1_flags := f32 12%nat; c1_build := f32 16%nat; c1_image_length := 0;
+      Ok {| c1_major := f16 4%nat; c1_minor := f16 6%nat; c1_flags := f32 12%nat; c1_build := f32 16%nat; c1_image_length := f32 20%nat;
             c1_certs := certs; c1_rkh := hs |}
   end.
 
